@@ -126,4 +126,27 @@ PROPS = {
                        'comparison with a reference automaton below a length bound, plus three data-flow obligations on parse_string '
                        '(text reaches the pre-pass and the grammar unmodified, error line taken from the exception)',
     },
+    'C19': {
+        'level': 'other',
+        'extra': [('pyvc-own(copy-before-write)', extras.cow_check), ('module threading', extras.module_threading_check)],
+        'needs_contracts': False,
+        'assumptions': ['DEFAULT conversion through type references (parser.convert_value), the transitive copy through '
+                        'ExplicitTag.inner, permutation of assignments/modules/files and the duplicate-name rule of '
+                        'Specification.__init__ are NOT covered (known defects 14 and 15 of DESIGN.md remain open)'],
+        'trusted_base': ['pyvc-own (pyvc/own.py) and the data-flow analysis in pyvc/extras.py'],
+        'explanation': 'reduced: (3) copy-before-write -- a member-specific OPTIONAL/DEFAULT/SIZE/tag is only ever written into a '
+                       'copy, never into the object stored in the compiled-type cache; (4) every part of a looked-up descriptor is '
+                       'interpreted in the module it was found in (module threading through lookup_* calls)',
+    },
+    'C13': {
+        'level': 'other',
+        'extra': [('module threading', extras.module_threading_check), ('pyvc-own(copy-before-write)', extras.cow_check)],
+        'needs_contracts': False,
+        'assumptions': ['idempotence / option-independence of the in-place pre-processing passes (automatic tagging, implied '
+                        'extension marker, COMPONENTS OF, default conversion) is NOT under contract; known defect 12 (ENUMERATED '
+                        'default rewritten in place under numeric_enums) remains open'],
+        'trusted_base': ['data-flow analysis in pyvc/extras.py'],
+        'explanation': 'reduced: module threading of COMPONENTS OF / type resolution (a dictionary whose module order changes, e.g. '
+                       'after pformat/eval, is expanded the same way) and copy-before-write of compiled members',
+    },
 }
